@@ -34,7 +34,7 @@ func isInvoke(name string) func(ssa.CallInstruction) bool {
 func isStaticCall(rel, name string) func(ssa.CallInstruction) bool {
 	return func(call ssa.CallInstruction) bool {
 		cal := call.Common().StaticCallee()
-		return cal != nil && core.PkgRel(cal) == rel && cal.Name() == name
+		return cal != nil && core.PkgRel(cal) == rel && core.CanonName(cal) == name
 	}
 }
 
@@ -588,7 +588,7 @@ func checkLinkPhase(c *core.Ctx, l *core.Ledger) {
 				if cal := call.Common().StaticCallee(); cal != nil && cal.Name() == "Link" {
 					nested = true
 				}
-				if cal := call.Common().StaticCallee(); cal != nil && core.PkgRel(cal) == "compile" && cal.Name() != "linked" {
+				if cal := call.Common().StaticCallee(); cal != nil && core.PkgRel(cal) == "compile" && core.CanonName(cal) != "linked" {
 					// any helper that may link (FieldGroup.Link...)
 					if strings.Contains(cal.Name(), "Link") {
 						nested = true
